@@ -42,7 +42,7 @@ def case_filter(prop, tier):
     if prop == "C16":
         return lambda c: c["retries"] in (0, 1) and not c["body"] and c["phdr"] == "none" and (not quick or (c["http1"] and not c["sniExt"] and not c["uds"]))
     if prop == "C11":
-        return lambda c: c["proxy"] != "none" and c["retries"] == 0 and c["tmo"] and not c["sniExt"] and (not quick or (c["http1"] and not c["alpnH2"]))
+        return lambda c: c["proxy"] != "none" and c["retries"] == 0 and c["tmo"] and (not c["sniExt"] or c["phdr"] == "none") and (not quick or (c["http1"] and not c["alpnH2"]))
     raise KeyError(prop)
 
 
